@@ -158,7 +158,7 @@ fn one<R: Residual>(c: &ConfigG<R>, out_dir: &str, seed: u64, k_tv: usize, k_ora
         let tv_states: Vec<RState> = (0..k_tv).map(|_| configs::sample_state(c, &mut rng)).collect();
         let set = trace::trace_set(c.model.as_ref(), &sa, &sb, &tv_states);
         // Coq file: one block per distinct program shape
-        let mut v = emit::header(&["ProgSem", "Homog", "AD", "Euler"]);
+        let mut v = emit::header(&["ProgSem", "ProgSemBig", "Homog", "AD", "Euler"]);
         v.push_str("From FeosProps Require Import C02.\n");
         v.push_str(&format!("Definition ncomp : nat := {}.\n", c.ncomp));
         let mut progs_json = Vec::new();
@@ -173,7 +173,7 @@ Eval vm_compute in ("DEG", "P", map (fun j => nth (P_out j) P_degs DNone) (seq 0
 Eval vm_compute in ("EVDEG", "P", map (fun k => nth k P_degs DNone) P_re).
 Eval vm_compute in ("CMPDEG", "P", map (fun ab => (nth (fst ab) P_degs DNone, nth (snd ab) P_degs DNone)) P_cmp).
 Eval vm_compute in ("FIRSTNONE", "P", first_none P_prog (d0_thermo ncomp (zero_flags P_consts))).
-Eval vm_compute in ("TV", "P", map (fun st => map (fun j => nth (P_out j) (evalI 53%Z P_prog st) I.nai) (seq 0 P_nouts)) P_inputs).
+Eval vm_compute in ("TV", "P", map (fun st => let r := evalIB 64%Z P_prog st in map (fun j => ib_out (nth (P_out j) r IB.nai)) (seq 0 P_nouts)) P_inputs).
 Lemma P_homogeneous_check : outputs_deg P_prog ncomp (zero_flags P_consts) P_nouts 1%Z = true.
 Proof. vm_compute. reflexivity. Qed.
 Lemma P_events_check : events_sign_ok P_prog ncomp (zero_flags P_consts) P_re = true.
@@ -200,7 +200,7 @@ Eval vm_compute in ("D1OK", "P", map (fun d => outputs_deg P_D1 ncomp (zero_flag
 Eval vm_compute in ("D1NONE", "P", map (fun d => first_none P_D1 (d0_thermo ncomp (zero_flags P_consts ++ P_seedflags d))) (seq 0 P_nvars)).
 (* numeric reading of Euler's relation at the validation states: directional derivative along (0,V,N,0) vs the value itself *)
 Definition P_edir (st : list (Z * Z)) : list (Z * Z) := (0, 0)%Z :: (firstn (P_nvars - 1) (tl st) ++ repeat (0, 0)%Z (List.length P_consts))%list.
-Eval vm_compute in ("EULER", "P", let d := tan_outs P_prog P_n [0%nat] in map (fun st => (nth 0 (evalI 53%Z P_prog st) I.nai, nth 0 (evalI 53%Z d (st ++ P_edir st)%list) I.nai)) P_inputs).
+Eval vm_compute in ("EULER", "P", let d := tan_outs P_prog P_n [0%nat] in map (fun st => (ib_out (nth 0 (evalIB 64%Z P_prog st) IB.nai), ib_out (nth 0 (evalIB 64%Z d (st ++ P_edir st)%list) IB.nai))) P_inputs).
 Lemma P_first_derivatives_check :
   forallb (fun d => outputs_deg P_D1 ncomp (zero_flags P_consts ++ P_seedflags d) 1 (P_d1deg d)) (seq 0 P_nvars) = true.
 Proof. vm_compute. reflexivity. Qed.
